@@ -5,7 +5,7 @@ import ast
 
 from ..cfg import iter_own
 from ..dataflow import ReachingDefs
-from ..loader import AnalysisError, ClassInfo, FuncInfo, dotted, walk_own
+from ..loader import exc_expr, AnalysisError, ClassInfo, FuncInfo, dotted, walk_own
 from ..ownership import BORROWED, NAMES, Ownership
 from .common import Anchors, call_name, enum_member, is_const, names_in, self_attr
 from .c17 import merge_func
@@ -278,7 +278,8 @@ def run(ctx) -> None:
         scfg = a.cfg(starter)
         sets = [n for n in scfg.live_nodes() if n.kind == "stmt" and isinstance(n.ast, ast.Assign) and any(isinstance(t, ast.Attribute) and t.attr == flag for t in n.ast.targets) and is_const(n.ast.value, True)]
         awaits = [n for n in scfg.live_nodes() if a.node_checkpoints(starter, scfg, n)]
-        rep.check("C14.R6", bool(sets) and all(scfg.dominates(sets[0].id, w.id) for w in awaits), starter, sets[0].ast if sets else starter.node, "the started flag is set before the starter's first checkpoint", "the started flag is not set before the component begins to start")
+        dom_sets = [s_ for s_ in sets if all(scfg.dominates(s_.id, w.id) for w in awaits)]
+        rep.check("C14.R6", bool(dom_sets), starter, (dom_sets or sets)[0].ast if sets else starter.node, "the started flag is set before the starter's first checkpoint", "the started flag is not set before the component begins to start")
 
     # ------------------------------------------------------------------ R7 determinism
     nondet = {"random", "uuid", "secrets", "time.time", "time.monotonic", "os.urandom", "builtins.id", "builtins.hash", "builtins.set", "builtins.frozenset"}
@@ -522,7 +523,7 @@ def _type_resolution(ctx, an: Anchors, init: FuncInfo, rd: ReachingDefs, cfg_par
     rep.check("C14.R5", is_ref, resolve, t_colon[0].ast, "a string with ':' is resolved as a module:attr reference", "a module:attr reference is not passed to resolve_reference")
     rep.check("C14.R5", rcfg.dominates(t_notstr[0].id, t_colon[0].id), resolve, t_colon[0].ast, "the string test precedes the ':' test", "':' is tested on non-strings")
     ep = [n for n in walk_own(resolve.node) if isinstance(n, ast.Call) and call_name(n) == "load"]
-    lookup = [n for n in walk_own(resolve.node) if isinstance(n, ast.Raise) and n.exc is not None and "LookupError" in ast.unparse(n.exc)]
+    lookup = [n for n in walk_own(resolve.node) if isinstance(n, ast.Raise) and n.exc is not None and "LookupError" in ast.unparse(exc_expr(n))]
     rep.check("C14.R5", bool(ep) and bool(lookup), resolve, resolve.node, "other strings are loaded from the entry point table (LookupError when absent)", "entry point names are not loaded / missing names are not reported")
     # the resolved class must be a Component subclass, checked before construction
     ctor = None
@@ -538,4 +539,4 @@ def _type_resolution(ctx, an: Anchors, init: FuncInfo, rd: ReachingDefs, cfg_par
         if checks:
             side = [d for d, lab in checks[0].succ if lab == "t"]
             first = cfg.nodes[side[0]] if side else None
-            rep.check("C14.R5", first is not None and isinstance(first.ast, ast.Raise) and "TypeError" in ast.unparse(first.ast.exc), init, checks[0].ast, "a non-Component type raises TypeError", "a non-Component type does not raise TypeError")
+            rep.check("C14.R5", first is not None and isinstance(first.ast, ast.Raise) and "TypeError" in ast.unparse(exc_expr(first.ast)), init, checks[0].ast, "a non-Component type raises TypeError", "a non-Component type does not raise TypeError")
